@@ -278,7 +278,13 @@ def check(case, rec=None):
                         if not sg2 and c2 < 1e6 and np.linalg.det(r2) > 0:
                             r2s = symmetrise(r2, symname)
                             ok, m3 = guard(rg.refine, ubi.copy())
-                            if not ok:
+                            if not ok and isinstance(m3, ValueError) and "orientation matrix U" in str(m3):
+                                # xfab's own consistency test on U = (B.ubi)^T (fixed absolute tolerance) refuses some
+                                # well-formed matrices of large cells: a clean rejection by the dependency, counted
+                                if rec is not None:
+                                    rec.exclude("lattice-constrained refine refused by xfab's rotation-matrix test "
+                                                "(ValueError)")
+                            elif not ok:
                                 fails.append(exc_failure("refinegrains.refine(latticesymmetry=%s)" % symname, m3))
                             else:
                                 good, err = fit_close(np.asarray(m3, float), np.linalg.inv(r2s), max(c1, c2))
